@@ -9,10 +9,10 @@ ids = [a for a in sys.argv[1:] if a.startswith("C")] or sorted(props.PROPS)
 bad = 0
 for p in ids:
     t = time.time()
-    r = subprocess.run(["./check", p, "--tier", tier], cwd="/verif", capture_output=True, text=True)
+    r = subprocess.run(["./check", p, "--tier", tier], cwd=os.path.dirname(os.path.dirname(os.path.abspath(__file__))), capture_output=True, text=True)
     line = (r.stdout.strip().split("\n") or [""])[-1]
     ok = r.returncode == 0
-    ev = "/verif/evidence/%s.json" % p
+    ev = os.path.join(os.environ.get("VERIF_OUT", os.path.dirname(os.path.dirname(os.path.abspath(__file__)))), "evidence", "%s.json" % p)
     try:
         v = subprocess.run(["python3-vt", "-c", "import json,jsonschema,sys; jsonschema.validate(json.load(open(sys.argv[1])), json.load(open('/root/.vp/EVIDENCE.schema.json')))", ev], capture_output=True, text=True)
         evok = v.returncode == 0
